@@ -3,6 +3,7 @@ package main
 import (
 	"fmt"
 	"go/types"
+	"regexp"
 	"sort"
 	"strings"
 	"sync"
@@ -277,6 +278,38 @@ func (m *Machine) violate(label, site string, extra *Term) {
 	if r == resUnsat {
 		return
 	}
+	// counterexamples must not rest on an answer of the uninterpreted regexp.Compile that the real
+	// function does not give: refine with the real answers on the model's strings (a few rounds)
+	for round := 0; round < 6 && !m.reCompilesRealistic(model); round++ {
+		var axioms []*Term
+		for _, rc := range m.reCompiles {
+			bs := []byte(rc.s.S)
+			var eqs []*Term
+			for i := range bs {
+				if rc.s.Sym != nil && rc.s.Sym[i] != nil {
+					v, _ := rc.s.Sym[i].eval(model)
+					bs[i] = byte(v)
+					eqs = append(eqs, tEq(rc.s.Sym[i], bvConst(v, 8)))
+				}
+			}
+			_, err := regexp.Compile(string(bs))
+			if (err == nil) != rc.ok {
+				axioms = append(axioms, tNot(tAnd(eqs...))) // these bytes with this answer are impossible
+			}
+		}
+		ex2 := append([]*Term{}, axioms...)
+		if extra != nil {
+			ex2 = append(ex2, extra)
+		}
+		m.refine = append(m.refine, axioms...)
+		r, model = m.solver.Sat(m.pc, m.allVars(), append(ex2, m.refine...)...)
+		if r != resSat {
+			return // no realistic counterexample found within the refinement budget: not reported
+		}
+	}
+	if !m.reCompilesRealistic(model) {
+		return
+	}
 	key := label + " @ " + site
 	ex.mu.Lock()
 	defer ex.mu.Unlock()
@@ -431,6 +464,11 @@ func (m *Machine) runPath(harness *ssa.Function, prefix []int, arg int) {
 			r, model = m.solver.Sat(m.pc, m.allVars())
 		} else {
 			model = map[string]uint64{}
+		}
+		if r == resSat && !m.reCompilesRealistic(model) {
+			// the model picked an answer of the uninterpreted regexp.Compile that the real function
+			// does not give for these bytes: not a natively replayable witness
+			r = resUnknown
 		}
 		if r == resSat {
 			leaf = &Leaf{Entry: st.Entry, Arg: arg, Values: append(concretise(m.ndlog, model), m.ufTable(model)...), Covers: append([]string{}, m.covers...), PCLen: len(m.pc)}
